@@ -345,6 +345,11 @@ def r1_sinks(ctx):
                 "division is discharged by an interval analysis with branch refinement (or the guarded-index pattern), or is within the reviewed "
                 "per-(function, kind) residual ceiling with its invariant; a new undischarged sink is reported")
     F = ctx.facts
+    with F.raw_mode():
+        _r1_sinks(ctx, R, F)
+
+
+def _r1_sinks(ctx, R, F):
     roots = builtin_roots(F)
     ctx.floor(R, "registered pure builtins", len(roots), 45)
     reach = reach_set(F, roots)
@@ -371,26 +376,21 @@ def r1_sinks(ctx):
     ctx.extra["c12_sinks_discharged_automatically"] = discharged
     if os.environ.get("QV_C12_GEN") == "1":
         tbl = {"residual": {}}
-        for (key, kind), items in sorted(residual.items()):
+        from rules.census import base_fn
+        merged = defaultdict(list)
+        for (key, kind), items in residual.items():
+            merged[(base_fn(key), kind)] += items
+        for (key, kind), items in sorted(merged.items()):
             old = TABLE["residual"].get("%s|%s" % (key, kind), {})
             tbl["residual"]["%s|%s" % (key, kind)] = {"ceiling": len(items), "why": old.get("why") or DEFAULT_WHY.get(kind.split(":")[0], "TODO"), "at": [i[0].split(":")[-1] for i in items]}
         json.dump(tbl, open(TABLE_PATH, "w"), indent=1)
         ctx.note("residual table regenerated: %d entries" % len(tbl["residual"]))
         return
-    for (key, kind), items in sorted(residual.items()):
-        tk = "%s|%s" % (key, kind)
-        ent = TABLE["residual"].get(tk)
-        site = tk
-        if ent is None:
-            for loc, detail in items:
-                ctx.violated(R, site, "unreviewed %s sink in a builtin's reach set (not discharged by the interval analysis): a user-supplied argument may "
-                                      "panic the worker or be truncated here" % kind, loc, detail)
-            continue
-        if len(items) > ent["ceiling"]:
-            ctx.violated(R, site, "%d undischarged %s sink(s), reviewed ceiling is %d (%s): a new panic/overflow-capable construct was added"
-                         % (len(items), kind, ent["ceiling"], ent["why"]), items[-1][0], {"sites": [i[0] for i in items]})
-        else:
-            ctx.exception(R, site, "%d/%d residual: %s" % (len(items), ent["ceiling"], ent["why"]), items[0][0])
+    from rules.census import reconcile
+    reconcile(ctx, R, residual, TABLE["residual"],
+              "unreviewed %s sink in a builtin's reach set (not discharged by the interval analysis): a user-supplied argument may panic the worker or be "
+              "truncated here",
+              "%d undischarged %s sink(s), reviewed ceiling is %d (%s): a new panic/overflow-capable construct was added")
 
 
 def r3_size_limit(ctx):
